@@ -22,13 +22,13 @@ def run(ctx):
         res, chunks = tlc.dump_states(wd, 'MC_RoiToSubset.tla', cfg, timeout=3000)
         ctx.add_tlc('E0+generation ' + cfg, res, cfg)
     items = []
-    reps = 1 if ctx.tier == 'quick' else 4
+    reps = 2 if ctx.tier == 'quick' else 6
     for k, c in enumerate(chunks):
         s = parse_state(c)
         if s['picked']:
             for v in range(reps):
                 items.append({'roi': _roi(s['roi']), 'inside': sorted(list(p) for p in s['inside']),
-                              'band': sorted(list(p) for p in s['band']), 'variant': ctx.seed + k * 7 + v})
+                              'band': sorted(list(p) for p in s['band']), 'variant': ctx.seed + k * 8 + v})
     paths = {}
     for it in items:
         key = (it['roi']['k'], it['roi']['xk'], it['roi']['yk'])
